@@ -2,8 +2,11 @@
    it never reads or writes outside its buffers and never hangs.  Statements only; proofs are in
    Shapes_Proof_*.v.  Model: Shapes_Model.v; predicates: Shapes_Spec.v. *)
 From Coq Require Import ZArith List Bool QArith.
+From Coq Require String.
 From TK Require Import Shapes_Model Shapes_Spec Shapes_Proof_Base Shapes_Proof_Routines
                        Shapes_Proof_Term Shapes_Proof_Main.
+From TK Require Import Validate_Model Mat_EigSelect Shapes_Src ShapesSrc Validate_C01 EigSelect_C01
+                       Shapes_Proof_Tie.
 Import ListNotations.
 Open Scope Z_scope.
 
@@ -231,3 +234,210 @@ Theorem c01_ms_adjust_decreases_partial : forall (err : Z -> option Q) pos e0 e1
   no_progress true (err (pos + 1)) (err pos) = false -> (e1 < e0)%Q.
 Proof. exact ms_adjust_step_decreases_partial. Qed.
 Print Assumptions c01_ms_adjust_decreases_partial.
+
+(* ==== wave 2 ================================================================================ *)
+(* ---- tie of the hand-written model to the tables regenerated from the source on every run ---- *)
+(* t_shapes (gen/ShapesSrc.v): every sizing / index expression of spe.hpp, neighbors.hpp (find_neighbors),
+   locally_linear.hpp and tsne.hpp that the model mirrors denotes, for all sizes, the model's expression *)
+Theorem c01_src_facts_tied : facts_agree gen_facts.
+Proof. exact src_facts_tied. Qed.
+Print Assumptions c01_src_facts_tied.
+
+Theorem c01_src_spe_clamp_halves : forall N nu,
+  0 <= N -> 0 <= nu ->
+  let E := {| s_N := N; s_D := 0; s_d := 0; s_k := 0; s_K := 0; s_nu := nu; s_j := 0; s_kk := 0; s_dp := 0 |} in
+  2 * Z.min nu (sx_eval E (f_spe_clamp gen_facts)) <= N.
+Proof. exact src_spe_clamp_halves. Qed.
+Print Assumptions c01_src_spe_clamp_halves.
+
+Example c01_src_spe_clamp_nonvacuous : 0 <= 5 /\ 0 <= 100 /\ spe_clamp_step 5 100 = 2.
+Proof. repeat split; try discriminate. Qed.
+
+(* t_val (gen/Validate_C01.v): target_dimension against the generated clauses of validate() is the
+   model's validate; the base range check; num_neighbors in [3, N) for exactly the neighbour methods *)
+Theorem c01_validate_tied : forall c, td_gen gen_tables c = Some (validate head (with_scalars_ok c)).
+Proof. exact validate_tied. Qed.
+Print Assumptions c01_validate_tied.
+
+Theorem c01_base_td_tied : forall c, base_td_gen gen_tables c = Some ((1 <=? c_d c) && (c_d c <? c_N c)).
+Proof. exact base_td_tied. Qed.
+Print Assumptions c01_base_td_tied.
+
+Theorem c01_nn_tied : forall c, nn_gen gen_tables c = Some (nn_model c).
+Proof. exact nn_tied. Qed.
+Print Assumptions c01_nn_tied.
+
+(* t_eig (gen/EigSelect_C01.v): every generated slice accepts exactly the (n, d, skip) eig_dense /
+   eig_randomized accept *)
+Theorem c01_eig_tied : forall n d skip, 0 <= n -> 0 <= d -> 0 <= skip ->
+  eig_differs_at eig_table n d skip = false.
+Proof. exact eig_tied. Qed.
+Print Assumptions c01_eig_tied.
+
+Example c01_eig_tied_nonvacuous : 0 <= 5 /\ 0 <= 4 /\ 0 <= 1 /\
+  eig_of_table eig_table eig_file fn_dense false 5 4 1 = Some (OOB 511 6 5).
+Proof. repeat split; try discriminate. Qed.
+
+Theorem c01_skip_tied :
+  skip_of skip_table "LargestEigenvalues"%string = Some 0%nat /\
+  skip_of skip_table "SquaredLargestEigenvalues"%string = Some 0%nat /\
+  skip_of skip_table "SmallestEigenvalues"%string = Some 1%nat.
+Proof. exact skip_tied. Qed.
+Print Assumptions c01_skip_tied.
+
+(* ---- strand 2, the routines added in wave 2 (all sizes) ---------------------------------------- *)
+Theorem c01_diffusion_matrix : forall N, diffusion_matrix N = Ok.
+Proof. exact diffusion_matrix_ok. Qed.
+Print Assumptions c01_diffusion_matrix.
+
+Theorem c01_distance_matrix : forall N, distance_matrix N = Ok.
+Proof. exact distance_matrix_ok. Qed.
+Print Assumptions c01_distance_matrix.
+
+Theorem c01_centered_kernel_matrix : forall N, centered_kernel_matrix N = Ok.
+Proof. exact centered_kernel_matrix_ok. Qed.
+Print Assumptions c01_centered_kernel_matrix.
+
+Theorem c01_center_matrix_exact : forall r c, center_matrix r c = Ok <-> r = c.
+Proof. exact center_matrix_iff. Qed.
+Print Assumptions c01_center_matrix_exact.
+
+Theorem c01_landmark_distance_matrix : forall N lm, idx_wf N lm -> landmark_distance_matrix lm N = Ok.
+Proof. exact landmark_distance_matrix_ok. Qed.
+Print Assumptions c01_landmark_distance_matrix.
+
+Example c01_landmark_distance_matrix_nonvacuous :
+  idx_wf 5 [3; 0; 4] /\ landmark_distance_matrix [0; 5] 5 = OOB 615 5 5.
+Proof. split; [repeat constructor; lia|exact landmark_distance_matrix_refuted]. Qed.
+
+Theorem c01_project_exact : forall N D prow mlen, project_full N D prow mlen = Ok <-> mlen = D /\ prow = D.
+Proof. exact project_full_iff. Qed.
+Print Assumptions c01_project_exact.
+
+Theorem c01_gaussian_projection_matrix : forall a b, gaussian_projection_matrix a b = Ok.
+Proof. exact gaussian_projection_matrix_ok. Qed.
+Print Assumptions c01_gaussian_projection_matrix.
+
+Theorem c01_random_projection_unswapped_refuted : forall N D d,
+  d <> D -> gaussian_projection_matrix d D ;; project_full N D d D <> Ok.
+Proof. exact random_projection_unswapped_refuted. Qed.
+Print Assumptions c01_random_projection_unswapped_refuted.
+
+Theorem c01_factor_analysis : forall N D d, factor_analysis N D d D = Ok.
+Proof. exact factor_analysis_ok. Qed.
+Print Assumptions c01_factor_analysis.
+
+Theorem c01_tsne_buffers : forall exact N D nd K,
+  0 <= N -> 0 <= D -> 0 <= nd -> (exact = false -> 0 <= K < N) -> tsne_buffers exact N D nd K = Ok.
+Proof. exact tsne_buffers_ok. Qed.
+Print Assumptions c01_tsne_buffers.
+
+Example c01_tsne_buffers_nonvacuous :
+  tsne_buffers false 4 2 2 3 = Ok /\ tsne_buffers false 4 2 2 4 = OOB 655 3 3.
+Proof. split; vm_compute; reflexivity. Qed.
+
+Theorem c01_quadtree_node_insert : forall size, 0 <= size <= qt_capacity -> quadtree_node_insert size = Ok.
+Proof. exact quadtree_node_insert_ok. Qed.
+Print Assumptions c01_quadtree_node_insert.
+
+Theorem c01_quadtree_size_invariant : forall size,
+  0 <= size <= qt_capacity -> 0 <= (if size <? qt_capacity then size + 1 else size) <= qt_capacity.
+Proof. exact quadtree_size_invariant. Qed.
+Print Assumptions c01_quadtree_size_invariant.
+
+Example c01_quadtree_nonvacuous : quadtree_node_insert 0 = Ok /\ quadtree_node_insert 2 = OOB 663 1 1.
+Proof. split; vm_compute; reflexivity. Qed.
+
+Theorem c01_vp_build : forall n draw, draw_wf draw ->
+  forall fuel lower upper, 0 <= lower <= upper -> upper <= n -> (Z.to_nat (upper - lower) < fuel)%nat ->
+  vp_build fuel n lower upper draw = Ok.
+Proof. exact vp_build_ok. Qed.
+Print Assumptions c01_vp_build.
+
+Example c01_vp_build_nonvacuous :
+  draw_wf (fun _ _ => 0) /\ vp_build 8 7 0 7 (fun _ _ => 0) = Ok /\ vp_build 3 2 0 2 (fun _ _ => 2) = OOB 722 2 2.
+Proof. split; [intros l u H; lia|split; vm_compute; reflexivity]. Qed.
+
+Theorem c01_cover_sets_access : forall scales,
+  Forall (fun s => 0 <= s) scales -> cover_sets_access true scales = Ok.
+Proof. exact cover_sets_access_ok. Qed.
+Print Assumptions c01_cover_sets_access.
+
+(* F28 regression *)
+Theorem cover_sets_access_refuted : cover_sets_access false [3; 120] = OOB 702 120 101.
+Proof. exact Shapes_Proof_Routines.cover_sets_access_refuted. Qed.
+Print Assumptions cover_sets_access_refuted.
+
+Theorem c01_bi_chain_scales_nonneg : forall g fuel top max l,
+  max <= top -> bi_chain fuel top max g = Some l -> Forall (fun s => 0 <= s) l.
+Proof. exact bi_chain_scales_nonneg. Qed.
+Print Assumptions c01_bi_chain_scales_nonneg.
+
+Example c01_bi_chain_nonvacuous :
+  bi_chain 10 5 5 (fun m => if 2 <? m then Some (m - 2) else None) = Some [0; 2; 4; 100].
+Proof. vm_compute. reflexivity. Qed.
+
+(* ---- strand 3, the loops added in wave 2 ------------------------------------------------------- *)
+Theorem c01_perplexity_search_terminates : forall found_at,
+  exists it, perplexity_search 201 found_at = Some it /\ (it <= 200)%nat.
+Proof. exact perplexity_search_terminates. Qed.
+Print Assumptions c01_perplexity_search_terminates.
+
+Theorem c01_fa_loop_terminates : forall max_iter conv_at,
+  exists it, fa_loop (S max_iter) max_iter conv_at = Some it /\ (it <= max_iter)%nat.
+Proof. exact fa_loop_terminates. Qed.
+Print Assumptions c01_fa_loop_terminates.
+
+Theorem c01_qt_depth_terminates : forall w delta : Q, (0 < delta)%Q ->
+  exists m t, qt_depth (S m) w delta = Some t /\ (t <= m)%nat.
+Proof. exact qt_depth_terminates. Qed.
+Print Assumptions c01_qt_depth_terminates.
+
+Example c01_qt_depth_nonvacuous : (0 < 1)%Q /\ qt_depth 10 8 1 = Some 5%nat.
+Proof. split; [reflexivity|vm_compute; reflexivity]. Qed.
+
+Theorem qt_depth_coincident_refuted : forall w : Q, (0 <= w)%Q -> forall fuel, qt_depth fuel w 0 = None.
+Proof. exact Shapes_Proof_Term.qt_depth_coincident_refuted. Qed.
+Print Assumptions qt_depth_coincident_refuted.
+
+Theorem c01_ct_descend_terminates : forall grow deepest,
+  (forall cs ms, ms <= deepest -> grow cs ms <= deepest) ->
+  forall cs ms, ms <= deepest ->
+  exists st n, iter_fuel (S (Z.to_nat (deepest + 1 - cs))) (ct_descend_step grow) (cs, ms) 0 = Some (st, n) /\
+               (n <= Z.to_nat (deepest + 1 - cs))%nat.
+Proof. exact ct_descend_terminates. Qed.
+Print Assumptions c01_ct_descend_terminates.
+
+Example c01_ct_descend_nonvacuous :
+  (forall cs ms, ms <= 7 -> Z.max ms (Z.min 7 (cs + 3)) <= 7) /\
+  iter_fuel 9 (ct_descend_step (fun cs ms => Z.max ms (Z.min 7 (cs + 3)))) (0, 0) 0 = Some ((8, 7), 8%nat).
+Proof. split; [intros; lia|vm_compute; reflexivity]. Qed.
+
+Theorem c01_bi_chain_terminates : forall g lo,
+  (forall m s, g m = Some s -> lo <= s <= m) ->
+  forall fuel top max, (Z.to_nat (max - lo + 1) < fuel)%nat ->
+  exists l, bi_chain fuel top max g = Some l /\ (length l <= Z.to_nat (max - lo + 1) + 1)%nat.
+Proof. exact bi_chain_terminates. Qed.
+Print Assumptions c01_bi_chain_terminates.
+
+Example c01_bi_chain_terminates_nonvacuous :
+  forall m s, (fun m => if 0 <? m then Some (m - 1) else None) m = Some s -> 0 <= s <= m.
+Proof. intros m s H. cbn in H. destruct (0 <? m) eqn:E; [|discriminate]. apply Z.ltb_lt in E. inversion H. lia. Qed.
+
+(* replaces the _partial statement about the hill climbing: with the error read as the ordinal of a
+   non-negative finite double, a strictly decreasing error ends after at most e + 1 sweeps *)
+Theorem c01_ms_sweeps_terminate : forall improve : Z -> option Z,
+  (forall e e', improve e = Some e' -> 0 <= e' < e) ->
+  forall e, 0 <= e ->
+  exists e' n, iter_fuel (S (Z.to_nat e)) (ms_sweep_step improve) e 0 = Some (e', n) /\
+               improve e' = None /\ (n <= Z.to_nat e)%nat.
+Proof. exact ms_sweeps_terminate. Qed.
+Print Assumptions c01_ms_sweeps_terminate.
+
+Example c01_ms_sweeps_nonvacuous :
+  (forall e e', (fun e => if 3 <? e then Some (e - 2) else None) e = Some e' -> 0 <= e' < e) /\
+  iter_fuel 11 (ms_sweep_step (fun e => if 3 <? e then Some (e - 2) else None)) 10 0 = Some (2, 4%nat).
+Proof.
+  split; [|vm_compute; reflexivity].
+  intros e e' H. cbn in H. destruct (3 <? e) eqn:E; [|discriminate]. apply Z.ltb_lt in E. inversion H. lia.
+Qed.
